@@ -40,8 +40,8 @@ FILES = {
     "tds/packageHeaderOnly.go": ["C12", "C02"],
     "tds/envChange.go": ["C11"],
     "tds/eedHook.go": ["C11"],
-    "asetypes/bytes.go": ["C04", "C05"],
-    "asetypes/goValue.go": ["C04", "C05", "C10"],
+    "asetypes/bytes.go": ["C04", "C05", "C06"],
+    "asetypes/goValue.go": ["C04", "C05", "C10", "C06"],
     "asetypes/decimal.go": ["C16", "C04", "C05"],
     "asetime/duration.go": ["C05", "C04"],
     "asetime/time.go": ["C05", "C04"],
